@@ -3,13 +3,13 @@
 # sub-agents that saw only the repository; each passed the whole suite) against every check; every check must stay silent.
 V="$(cd "$(dirname "$0")/.." && pwd)"
 [ $# -gt 0 ] || set -- "$V"/refactors/*/
-S="$(mktemp -d /tmp/rfm.XXXXXX)"; mkdir -p "$S/verif"; cp "$V/known_findings.txt" "$S/verif/"
+S="$(mktemp -d /tmp/rfm.XXXXXX)"; mkdir -p "$S/verif"; cp "$V/known_findings.txt" "$S/verif/"; cp "$V/bin/hclcheck" "$S/hclcheck"  # a private copy: the binary may be rebuilt meanwhile
 bad=0
 for d in "$@"; do d="$(readlink -f "$d")"
   id="$(basename "$d")"
   rm -rf "$S/repo"; rsync -a --exclude .git /repo/ "$S/repo/"
   if ! (cd "$S/repo" && patch -p1 -s --no-backup-if-mismatch < "$d/patch.diff" >/dev/null 2>&1); then echo "$id  DOES-NOT-APPLY"; continue; fi
-  out="$(GOPROXY=off GOWORK=off "$V/bin/hclcheck" -property all -tier quick -repo "$S/repo" -verif "$S/verif" 2>&1)"
+  out="$(GOPROXY=off GOWORK=off "$S/hclcheck" -property all -tier quick -repo "$S/repo" -verif "$S/verif" 2>&1)"
   if [ $? -eq 0 ]; then echo "$id  silent"; else bad=$((bad+1)); echo "$id  ALARM"; echo "$out" | grep -v "KNOWN-FINDING\|^C[0-9][0-9] quick\|^VIOLATION" | sed "s#$S/##g; s/^/      /" | cut -c1-400; fi
 done
 rm -rf "$S"
